@@ -9,6 +9,7 @@ import Nervus.Driver.Handles
 import Nervus.Driver.Locks
 import Nervus.Driver.OKey
 import Nervus.Driver.Pager
+import Nervus.Driver.PlanOps
 import Nervus.Driver.SnapSched
 import Nervus.Driver.Vacuum
 import Nervus.Driver.WalFrame
@@ -30,16 +31,9 @@ def streams : List (String × Stream) := ([] : List (String × Stream))
   |>.cons ("btree", BTreeStream.stream)
   |>.cons ("pager", PagerStream.stream)
   |>.cons ("vacuum", VacuumStream.stream)
-import Nervus.Driver.PlanOps
-open Nervus.Driver
-
-/-- stream registry: one line per stream (kept one-per-line so that merges are unions) -/
-def streams : List (String × Stream) := [
-  ("okey", OKeyStream.stream),
-  ("plan", PlanStream.stream),
-  ("planlim", PlanStream.stream),
-  ("planwhere", PlanStream.stream)
-]
+  |>.cons ("plan", PlanStream.stream)
+  |>.cons ("planlim", PlanStream.stream)
+  |>.cons ("planwhere", PlanStream.stream)
 
 def main (args : List String) : IO UInt32 := do
   match args with
